@@ -334,8 +334,8 @@ func (e *Ev) callStatic(fn *types.Func, recv *Term, args []Term, n *ast.CallExpr
 	// modifies: havoc
 	post := e.st
 	for _, c := range b.clauses("modifies") {
-		for _, h := range strings.Fields(c.Text) {
-			e.havocHeap(h)
+		for _, h := range splitTopSpaces(c.Text) {
+			e.havocItem(h, mk(pre, pre))
 		}
 	}
 	postView := &State{vars: map[types.Object]Term{}, named: map[string]Term{}, heaps: post.heaps, decls: e.st.decls, boxed: map[types.Object]*Loc{}}
@@ -352,6 +352,10 @@ func (e *Ev) callStatic(fn *types.Func, recv *Term, args []Term, n *ast.CallExpr
 			reqs = append(reqs, ce.evSpec(c.Text).S)
 		}
 	}
+	if pure && !e.u.revealed(key) {
+		// opaque by default: a pure callee is just its function symbol unless the unit reveals it
+		goto done
+	}
 	for _, c := range b.clauses("ensures") {
 		ce := mk(postView, pre)
 		ce.results = results
@@ -360,6 +364,7 @@ func (e *Ev) callStatic(fn *types.Func, recv *Term, args []Term, n *ast.CallExpr
 		t := ce.evSpec(c.Text)
 		e.assumeQ(smtImp(smtAnd(append([]string{e.guardCond()}, reqs...)...), t.S))
 	}
+done:
 	// convert results back to caller mode
 	for i := range results {
 		rt := results[i].T
@@ -479,6 +484,8 @@ func (e *Ev) inlineCall(fn *types.Func, fd *ast.FuncDecl, b *Block, recv *Term, 
 		}
 	}
 	e.u.inlineDepth++
+	saveBV := e.u.bv
+	e.u.bv = e.bv
 	heapsBefore := map[string]string{}
 	for k, v := range sub.heaps {
 		heapsBefore[k] = v.S
@@ -504,6 +511,7 @@ func (e *Ev) inlineCall(fn *types.Func, fd *ast.FuncDecl, b *Block, recv *Term, 
 	flow.next = func(s *State) { flow.ret(s, nil) }
 	e.u.execList(fd.Body.List, sub, flow)
 	e.u.inlineDepth--
+	e.u.bv = saveBV
 	e.u.sig, e.u.resVars = saveSig, saveRes
 	seenFact := map[string]bool{}
 	for _, f := range facts {
@@ -771,4 +779,94 @@ func (e *Ev) callExternal(fn *types.Func, recv *Term, n *ast.CallExpr) Term {
 
 func (e *Ev) callExternalArgs(fn *types.Func, recv *Term, args []Term, n *ast.CallExpr) Term {
 	return e.g().callExternal(e, fn, recv, args, n)
+}
+
+func splitTopSpaces(s string) []string {
+	var out []string
+	depth := 0
+	cur := ""
+	for _, c := range s {
+		switch {
+		case c == '(' || c == '[':
+			depth++
+			cur += string(c)
+		case c == ')' || c == ']':
+			depth--
+			cur += string(c)
+		case (c == ' ' || c == '\t') && depth == 0:
+			if cur != "" {
+				out = append(out, cur)
+				cur = ""
+			}
+		default:
+			cur += string(c)
+		}
+	}
+	if cur != "" {
+		out = append(out, cur)
+	}
+	return out
+}
+
+// modItem resolves a modifies item to (heap name, heap sort, exception ref term or "").
+// Items: HEAPNAME | * | elems(sliceExpr) | fields(ptrExpr)
+func (e *Ev) modItem(item string, ce *Ev) (name, sort, ref string, ok bool) {
+	switch {
+	case strings.HasPrefix(item, "elems(") && strings.HasSuffix(item, ")"):
+		t := ce.evSpec(item[6 : len(item)-1])
+		if t.Sort != sSlice || t.T == nil {
+			e.errorf(nil, "modifies %s: not a slice", item)
+			return
+		}
+		st, isS := t.T.Underlying().(*types.Slice)
+		if !isS {
+			e.errorf(nil, "modifies %s: not a slice type", item)
+			return
+		}
+		es := ce.sortOf(st.Elem())
+		return "A$" + sanitize(es), fmt.Sprintf("(Array Int (Array Int %s))", es), app("sarr", t.S), true
+	case strings.HasPrefix(item, "fields(") && strings.HasSuffix(item, ")"):
+		t := ce.evSpec(item[7 : len(item)-1])
+		pt, isP := t.T.Underlying().(*types.Pointer)
+		if !isP {
+			e.errorf(nil, "modifies %s: not a pointer", item)
+			return
+		}
+		s := ce.sortOf(pt.Elem())
+		return "H$" + sanitize(s), fmt.Sprintf("(Array Int %s)", s), t.S, true
+	}
+	return item, "", "", true
+}
+
+// havocItem havocs what a modifies item allows to change.
+func (e *Ev) havocItem(item string, ce *Ev) {
+	name, sort, ref, ok := e.modItem(item, ce)
+	if !ok {
+		return
+	}
+	if ref == "" {
+		e.havocHeap(name)
+		return
+	}
+	h := e.heap(name, sort)
+	nm := e.g().freshName(name)
+	e.st.declare(nm, sort)
+	e.define(fmt.Sprintf("(forall ((a Int)) (! (=> (not (= a %s)) (= (select %s a) (select %s a))) :pattern ((select %s a))))", ref, nm, h, nm))
+	e.st.heaps[name] = Term{S: nm, Sort: sort}
+	e.u.noteWrite(name)
+}
+
+// revealed: does the unit ask for the postconditions of the pure function key (`reveal KEY...`)?
+func (u *Unit) revealed(key string) bool {
+	for _, b := range []*Block{u.block, u.caseBlock} {
+		if b == nil {
+			continue
+		}
+		for _, k := range strings.Fields(b.Flags["reveal"]) {
+			if k == key || k == "*" {
+				return true
+			}
+		}
+	}
+	return false
 }
